@@ -95,7 +95,7 @@ impl Check for C10 {
     }
 
     fn rule(&self) -> String {
-        "case = World with one observed real Client and a Server (1 case in 5: the client's address was used shortly before by a connection that the server application dropped with Server::drop while it was established; 2 cases in 5 with bystanders: other clients that connect and disconnect before, or every few seconds during, the script - their 20 s linger timers sit in the server's timer queue): generated active_timeout_ms (1..60 s) and keepalive settings on both sides, link latencies 0..300 ms, the first 0..12 SYNs and / or SYN-ACKs lost, a base step cadence of 1 ms..400 ms, then a generated sequence of ticks (0..8 s apart, either endpoint sometimes not stepping), runs of regular stepping, sends in both directions, and blackouts of 0.1..70 s in either or both directions (placing last-frame arrivals and deadlines at arbitrary offsets from the steps), optionally with an undecodable datagram first in line before every server and / or client step, optionally followed by an idle period of up to an hour (two in thorough) on a loss-free link. Oracle per endpoint, with e the time it became active and p the time of the step in which it last processed a valid data / sync / ack frame from its peer: (a) a Timeout on an active connection at step time t requires t - max(e, p) >= active_timeout_ms; (b) the first step with t - max(e, p) >= active_timeout_ms must report it; (c) with keepalive on, on loss-free links and 3*max(interval, 2 s) + 4*(latency + largest step gap) <= active_timeout_ms, no timeout during the idle period; (d) a client whose handshake never completes reports Error(Timeout) no earlier than 22 000 ms after connect() and no later than that plus 12 step gaps, having sent exactly 11 SYNs; the server sends at most 1 + 10 SYN-ACKs per pending entry and reports its handshake timeout no earlier than 22 000 ms after the SYN; (d') SYN-ACK repeats of one pending entry are 2 s apart - not earlier, and not later than 2 s plus two step gaps; (e) a disconnect attempt (disconnect() / disconnect_now() from either side at a generated moment) sends at most 1 + 10 Disconnect frames, 2 s apart (not earlier; not later than 2 s plus two step gaps), and gives up with Error(Timeout) no earlier than 22 000 ms after the first. Non-trivial = a deadline fell within two step gaps of a frame arrival, or the handshake needed at least one retry. Distinct = distinct serialised case.".into()
+        "case = World with one observed real Client and a Server (1 case in 5: the client's address was used shortly before by a connection that the server application dropped with Server::drop while it was established; 2 cases in 5 with bystanders: other clients that connect and disconnect before, or every few seconds during, the script - their 20 s linger timers sit in the server's timer queue): generated active_timeout_ms (1..60 s) and keepalive settings on both sides, link latencies 0..300 ms, the first 0..12 SYNs and / or SYN-ACKs lost, a base step cadence of 1 ms..400 ms, then a generated sequence of ticks (0..8 s apart, either endpoint sometimes not stepping), runs of regular stepping, sends in both directions, and blackouts of 0.1..70 s in either or both directions (placing last-frame arrivals and deadlines at arbitrary offsets from the steps), optionally with an undecodable datagram first in line before every server and / or client step, optionally followed by an idle period of up to an hour (two in thorough) on a loss-free link. Oracle per endpoint, with e the time it became active and p the time of the step in which it last processed a valid data / sync / ack frame from its peer: (a) a Timeout on an active connection at step time t requires t - max(e, p) >= active_timeout_ms; (b) the first step with t - max(e, p) >= active_timeout_ms must report it; (c) with keepalive on, on loss-free links and 3*max(interval, 2 s) + 4*(latency + largest step gap) <= active_timeout_ms, no timeout during the idle period; (d) a client whose handshake never completes reports Error(Timeout) no earlier than 22 000 ms after connect() and no later than that plus 12 step gaps, having sent exactly 11 SYNs; the server sends at most 1 + 10 SYN-ACKs per pending entry and reports its handshake timeout (enable_handshake_errors is on in half of the cases) no earlier than 22 000 ms after the SYN, and - told or not - no longer tracks the address once budget plus 12 step gaps have passed; (d') SYN-ACK repeats of one pending entry are 2 s apart - not earlier, and not later than 2 s plus two step gaps; (e) a disconnect attempt (disconnect() / disconnect_now() from either side at a generated moment) sends at most 1 + 10 Disconnect frames, 2 s apart (not earlier; not later than 2 s plus two step gaps), and gives up with Error(Timeout) no earlier than 22 000 ms after the first. Non-trivial = a deadline fell within two step gaps of a frame arrival, or the handshake needed at least one retry. Distinct = distinct serialised case.".into()
     }
 
     fn assumptions(&self) -> Vec<String> {
@@ -112,6 +112,8 @@ impl Check for C10 {
     fn run(&self, c: &Case) -> CaseResult {
         let mut classes: Vec<&'static str> = Vec::new();
         let scfg = ServerCfg {
+            // (whether the server application is told about failed handshakes: both settings, derived from the seed)
+            handshake_errors: (c.seed >> 12) % 2 == 0,
             ep: EpCfg { active_timeout_ms: c.server_timeout_ms, keepalive: c.server_keepalive.is_some(), keepalive_interval_ms: c.server_keepalive.unwrap_or(5000), ..EpCfg::default() },
             ..ServerCfg::default()
         };
@@ -398,6 +400,21 @@ impl Check for C10 {
                     }
                     classes.push("server_handshake_timeout");
                 }
+            }
+        }
+        // a handshake attempt ENDS after its budget, whether or not the application is told: the server must not go on
+        // tracking an address that never completed the exchange
+        if s_connect.is_none() {
+            if let Some(t0) = synack_by_nonce.values().map(|v| v[0]).max() {
+                let gap = gap_between(&steps_s, t0, t0 + HS_BUDGET_US);
+                let last_step = steps_s.last().map_or(0, |p| p.1);
+                if last_step > t0 + HS_BUDGET_US + 12 * gap + 1_000_000 && w.server_has_client(&caddr) {
+                    return CaseResult::fail(
+                        "oracle:c10:handshake_attempt_never_ends:server",
+                        format!("the server first answered the (latest) connection request of {caddr} at t={t0} us and never saw it completed; at t={last_step} us, {} us later, it still tracks that address (enable_handshake_errors = {}): the attempt outlives its 22 000 ms retry budget", last_step - t0, scfg.handshake_errors),
+                    );
+                }
+                classes.push(if scfg.handshake_errors { "server_attempt_abandoned_errors_on" } else { "server_attempt_abandoned_errors_off" });
             }
         }
         if syns.len() > 1 {
